@@ -31,8 +31,13 @@ def tree_hash():
                 h.update(p.encode())
                 with open(p, "rb") as fh:
                     h.update(fh.read())
-    for f in ("pipeline.py", "runner.py", "variants.py", "designs.py"):
+    for f in ("pipeline.py", "runner.py", "variants.py", "designs.py", "monitor.py", "../contracts/fixes.py", "../contracts/vhdlfile.py", "../contracts/tags.py", "../pyvc/concrete.py"):
         with open(os.path.join(VERIF, "bounded", f), "rb") as fh:
+            h.update(fh.read())
+    # the inputs of the universe
+    for p in corpus.corpus_files():
+        h.update(p.encode())
+        with open(p, "rb") as fh:
             h.update(fh.read())
     return h.hexdigest()[:16]
 
